@@ -1,5 +1,6 @@
 use crate::report::{Ctx, Report, Spec};
 pub mod c06;
+pub mod c07;
 pub mod c13;
 pub mod c16;
 pub mod c18;
@@ -12,6 +13,7 @@ pub fn dispatch(ctx: &Ctx) -> Option<(Spec, Report)> {
         "C01" => wire::run(ctx, 1),
         "C02" => wire::run(ctx, 2),
         "C06" => c06::run(ctx),
+        "C07" => c07::run(ctx),
         "C13" => c13::run(ctx),
         "C16" => c16::run(ctx),
         "C18" => c18::run(ctx),
